@@ -90,7 +90,7 @@ struct state { int seenmail, flagbarf; char *mailfrom; size_t mflen; char *rcptt
   /* reference ledger, part of the state identity only through the server state (checked, not hashed) */
   int r_open; char *r_sender; char *r_rcpts; size_t r_rlen; int depth; char *path; };
 static struct state *states; static size_t nstates, capstates; static h_set visited;
-static long n_eval, n_trans, n_accept, n_refused, n_data, n_nontrivial;
+static long n_eval, n_trans, n_accept, n_refused, n_data, n_nontrivial, n_variants;
 
 static uint64_t hash_server(void)
 {
@@ -167,6 +167,25 @@ static void step(size_t si, int ci, int maxdepth)
       if (net_out_len < 20 || memcmp(net_out + 14, "250 ok", 6)) { H_FAIL(key, "no 250 after the final dot: %s", H_ESC(net_out, net_out_len)); return; }
       r_open = 0; rll = 0;
     } else if (qq_opens || qq_committed) { H_FAIL(key, "[%s] answered %d but the queue was contacted (%d opens, %d commits)", c->line, code, qq_opens, qq_committed); return; }
+    /* ---- input-form variants (states up to depth 2): the same command ended by a bare LF, and pipelined with a NOOP in the same
+     * read, must give the same reply, the same server state and the same submission ---- */
+    if (s->depth <= 2 && c->kind != 5 && want != 421) {
+      static unsigned char o0[8192]; size_t o0l = net_out_len < sizeof o0 ? net_out_len : sizeof o0; uint64_t h0 = hash_server(); int com0 = qq_committed; int v;
+      static unsigned char e0[4096]; size_t e0l = qq_last_env_len < sizeof e0 ? qq_last_env_len : sizeof e0;
+      memcpy(o0, net_out, o0l); memcpy(e0, qq_last_env, e0l);
+      for (v = 0; v < 2; v++) {
+        const char *body = c->kind == 3 ? payload : c->kind == 6 ? "Subject: big\r\n\r\n0123456789012345678901234567890123456789012345678901234567890123456789\r\n.\r\n" : "";
+        restore(s);
+        il = snprintf((char *) in, sizeof in, "%s%s%s%s", c->line, v == 0 ? "\n" : "\r\n", body, v == 1 ? "NOOP\r\n" : "");
+        smtpd_reset_io(in, il, 0);
+        h_exit_armed = 1;
+        if (setjmp(h_exit_jb) == 0) { commands(&ssin, &smtpcommands); h_exit_armed = 0; }
+        n_eval++; n_variants++;
+        if (v == 1) { if (net_out_len < 8 || memcmp(net_out + net_out_len - 8, "250 ok\r\n", 8)) { H_FAIL(key, "pipelined NOOP after [%s] not answered 250 ok: %s", strlen(c->line) > 80 ? "(over-long)" : c->line, H_ESC(net_out, net_out_len > 200 ? 200 : net_out_len)); return; } net_out_len -= 8; }
+        if (net_out_len != o0l || memcmp(net_out, o0, o0l)) { H_FAIL(key, "%s: replies differ from the CRLF-terminated form: %s vs %s", v ? "pipelined with a following command" : "line ended by a bare LF", H_ESC(net_out, net_out_len > 120 ? 120 : net_out_len), H_ESC(o0, o0l > 120 ? 120 : o0l)); return; }
+        if (hash_server() != h0 || qq_committed != com0 || qq_last_env_len != e0l || memcmp(qq_last_env, e0, e0l)) { H_FAIL(key, "%s: server state or submission differs from the CRLF-terminated form", v ? "pipelined with a following command" : "line ended by a bare LF"); return; }
+      }
+    }
     /* ---- successor ---- */
     if (c->kind == 5 || want == 421) return;
     if (s->depth + 1 > maxdepth) return;
@@ -217,7 +236,7 @@ int main(int argc, char **argv)
   capstates = 1024; states = malloc(capstates * sizeof *states); nstates = 1; save(&states[0]); states[0].r_open = 0; states[0].r_sender = strdup(""); states[0].r_rcpts = strdup(""); states[0].r_rlen = 0; states[0].depth = 0; states[0].path = strdup("(connect)");
   h_set_add(&visited, hash_server());
   for (si = 0; si < nstates; si++) for (i = 0; i < ncmds; i++) step(si, i, maxdepth);
-  printf("STAT evaluations=%ld distinct_nontrivial=%ld states=%zu transitions=%ld recipients_accepted=%ld recipients_refused=%ld messages_submitted=%ld\n", n_eval, n_nontrivial, nstates, n_trans, n_accept, n_refused, n_data);
+  printf("STAT evaluations=%ld distinct_nontrivial=%ld states=%zu transitions=%ld recipients_accepted=%ld recipients_refused=%ld messages_submitted=%ld input_form_variants=%ld\n", n_eval, n_nontrivial, nstates, n_trans, n_accept, n_refused, n_data, n_variants);
   fflush(stdout);
   h_real_exit(h_nfail ? 1 : 0);
 }
